@@ -375,6 +375,7 @@ func checkC05(c *Ctx) {
 	if fn == nil {
 		return
 	}
+	c.ruleDetachedData("L7.detached")
 	fname := name(fn)
 	dv := c.deepViewOf(fn, 6)
 	dv.throughFields = true
